@@ -293,6 +293,24 @@ impl ConnectionHandler for WrapHandler {
 
     fn poll(&mut self, cx: &mut Context<'_>) -> Poll<ConnectionHandlerEvent<Self::OutboundProtocol, Self::OutboundOpenInfo, Self::ToBehaviour>> {
         let r = self.inner.poll(cx);
+        let probes = v::probe::take();
+        let res = match &r {
+            Poll::Pending => "pending".to_string(),
+            Poll::Ready(ConnectionHandlerEvent::OutboundSubstreamRequest { protocol }) => match protocol.info() {
+                StreamRequester::Client => "open:client".into(),
+                StreamRequester::Server => "open:server".into(),
+            },
+            Poll::Ready(ConnectionHandlerEvent::NotifyBehaviour(e)) => match v::describe_handler_event(e) {
+                VHandlerEvent::SendingStateChanged(_, s) => format!("report:{}", show_sending(&s).split(':').next().unwrap_or("")),
+                VHandlerEvent::ClientClosingConnection(..) => "closing".into(),
+                VHandlerEvent::IncomingMessage { .. } => "incoming".into(),
+                VHandlerEvent::NewBlocksAvailable(_) => "other".into(),
+            },
+            Poll::Ready(_) => "other".into(),
+        };
+        if !(probes.is_empty() && res == "pending") {
+            self.log(format!("x poll t={} pr={} res={}", v::clock::now().as_millis(), probes.join(";"), res));
+        }
         if let Poll::Ready(ev) = &r {
             match ev {
                 ConnectionHandlerEvent::OutboundSubstreamRequest { protocol } => {
@@ -324,6 +342,17 @@ impl ConnectionHandler for WrapHandler {
 
     fn poll_close(&mut self, cx: &mut Context<'_>) -> Poll<Option<Self::ToBehaviour>> {
         let r = self.inner.poll_close(cx);
+        let probes = v::probe::take();
+        let res = match &r {
+            Poll::Ready(Some(e)) => match v::describe_handler_event(e) {
+                VHandlerEvent::SendingStateChanged(_, s) => format!("report:{}", show_sending(&s).split(':').next().unwrap_or("")),
+                VHandlerEvent::ClientClosingConnection(..) => "closing".into(),
+                _ => "other".to_string(),
+            },
+            Poll::Ready(None) => "none".into(),
+            Poll::Pending => "pending".into(),
+        };
+        self.log(format!("x close t={} pr={} res={}", v::clock::now().as_millis(), probes.join(";"), res));
         if let Poll::Ready(Some(e)) = &r {
             match v::describe_handler_event(e) {
                 VHandlerEvent::SendingStateChanged(_, s) => self.log(format!("close report {}", show_sending(&s))),
@@ -344,9 +373,17 @@ impl ConnectionHandler for WrapHandler {
                 }
                 self.log(format!("in send-wantlist #{} full={} entries={}", self.seq, w.full as u8, toks.join(",")));
             }
-            ToHandlerEvent::QueueOutgoingMessages(bs) => self.log(format!("in queue-blocks {}", bs.len())),
+            ToHandlerEvent::QueueOutgoingMessages(bs) => {
+                self.log(format!("in queue-blocks {}", bs.len()));
+                self.log(format!("x queue {}", bs.iter().map(|(p, d)| format!("{}:{}", p.len(), d.len())).collect::<Vec<_>>().join(",")));
+            }
         }
-        self.inner.on_behaviour_event(event)
+        let wantlist = matches!(event, ToHandlerEvent::SendWantlist(_));
+        self.inner.on_behaviour_event(event);
+        if wantlist {
+            self.log(format!("x accepted t={}", v::clock::now().as_millis()));
+        }
+        let _ = v::probe::take();
     }
 
     fn on_connection_event(&mut self, event: ConnectionEvent<'_, Self::InboundProtocol, Self::OutboundProtocol, Self::InboundOpenInfo, Self::OutboundOpenInfo>) {
@@ -368,7 +405,12 @@ impl ConnectionHandler for WrapHandler {
             )),
             _ => {}
         }
-        self.inner.on_connection_event(event)
+        self.inner.on_connection_event(event);
+        for p in v::probe::take() {
+            if let Some(vid) = p.strip_prefix("in:") {
+                self.log(format!("x inbound vid={vid}"));
+            }
+        }
     }
 }
 
@@ -455,6 +497,8 @@ pub fn make_tables(n: usize, max_key: u64) -> Arc<Tables> {
 impl Sim {
     pub fn new(n: usize, prefixes: &[Option<String>], sdh: bool, max_key: u64) -> Sim {
         v::clock::reset();
+        v::probe::enable();
+        let _ = v::probe::take();
         let tables = make_tables(n, max_key);
         let mut nodes = vec![];
         for i in 0..n {
